@@ -841,3 +841,6 @@ mod tests {
         assert!(!summary.apply_successful, "must not apply if conflict lost");
     }
 }
+
+#[cfg(foca_verif)]
+mod verif;
